@@ -75,7 +75,7 @@ class Dump:
             out.append("schema")
         for name in sorted(set(self.tables) | set(other.tables)):
             if self.tables.get(name) != other.tables.get(name):
-                out.append("%s(%s->%s)" % (name, self.counts.get(name), other.counts.get(name)))
+                out.append("%s(rows here=%s, there=%s)" % (name, self.counts.get(name), other.counts.get(name)))
         if self.integrity != other.integrity:
             out.append("integrity")
         if self.error != other.error:
@@ -111,7 +111,11 @@ def dump(path, static_cache=None):
         except sqlite3.Error as exc:
             d.error = "master:%s:%s" % (type(exc).__name__, exc)
             return d
-        d.schema = hashlib.sha1(repr(master).encode()).hexdigest()
+        try:
+            header = [con.execute("PRAGMA " + name).fetchone()[0] for name in ("user_version", "application_id")]
+        except sqlite3.Error as exc:
+            header = ["error:%s" % exc]
+        d.schema = hashlib.sha1(repr((master, header)).encode()).hexdigest()
         for typ, name, _tbl, _sql in master:
             if typ != "table":
                 continue
